@@ -214,7 +214,7 @@ def gen_ops(r, sig, fresh, n_ops, with_tracking=False, allow_tv=False):
     elif x < 0.97:
       ops.append(['delslice', rand_slice(r, L, sig)])
     elif with_tracking:
-      ops.append([r.choice(['suspend', 'resume'])])
+      ops.append([r.choice(['suspend', 'resume', 'enter_suspend', 'enter_suspend', 'exit_suspend', 'exit_suspend'])])
     else:
       ops.append(['getitem', rand_index(r, L)])
   return ops
@@ -340,6 +340,13 @@ def real_step(cfg, op):
       fdl.update_callable(cfg, targets.make_fn(op[1]), drop_invalid_args=op[2])
     elif name == 'assign':
       fdl.assign(cfg, **{k: to_py(v) for k, v in op[1]})
+    elif name == 'enter_suspend':
+      cm = fdl_history.suspend_tracking()
+      cm.__enter__()
+      _SUSPEND_STACK.append(cm)
+    elif name == 'exit_suspend':
+      if _SUSPEND_STACK:
+        _SUSPEND_STACK.pop().__exit__(None, None, None)
     elif name == 'suspend':
       fdl_history.set_tracking(False)
     elif name == 'resume':
@@ -353,8 +360,12 @@ def real_step(cfg, op):
   return 'ok'
 
 
+_SUSPEND_STACK = []
+
+
 def run_real(case, species='function', buildable=fdl.Config, with_build=True):
   """Runs a case on the real code; same shape as the driver's response."""
+  del _SUSPEND_STACK[:]
   fn = targets.make_fn(case['sig'], species, ann=case.get('ann'))
   fdl_history.set_tracking(True)
   try:
@@ -386,6 +397,11 @@ def run_real(case, species='function', buildable=fdl.Config, with_build=True):
       out['steps'].append({'res': res, 'state': observe(cfg, with_build)})
     return out, cfg
   finally:
+    while _SUSPEND_STACK:
+      try:
+        _SUSPEND_STACK.pop().__exit__(None, None, None)
+      except Exception:
+        pass
     fdl_history.set_tracking(True)
 
 
@@ -481,5 +497,5 @@ def gen_tag_ops(r, sig, fresh, n_ops):
       P = len([p for p in sig if p[1] in ('po', 'pk')])
       has_vp = any(p[1] == 'vp' for p in sig)
     else:
-      ops.append([r.choice(['suspend', 'resume'])])
+      ops.append([r.choice(['suspend', 'resume', 'enter_suspend', 'enter_suspend', 'exit_suspend', 'exit_suspend'])])
   return ops
